@@ -178,7 +178,8 @@ func checkC18(c *hx.Ctx) {
 	docs := []map[string]interface{}{
 		{},
 		{"arr": []interface{}{map[string]interface{}{"a": 1.0}, 2.0}, "o": map[string]interface{}{"k": "v"}, "a": "s",
-			"publicKey": []interface{}{goodKey("k1")}, "service": []interface{}{goodSvc("s1")}, "~": 1.0, "a/b": 2.0},
+			"publicKey": []interface{}{goodKey("k1")}, "service": []interface{}{goodSvc("s1")}, "~": map[string]interface{}{"t": 1.0}, "a/b": map[string]interface{}{"s": 2.0},
+			"~1": map[string]interface{}{"u": 3.0}, "0": map[string]interface{}{"z": 4.0}},
 		{"arr": []interface{}{}, "o": map[string]interface{}{}, "n": nil, "publicKey": []interface{}{goodKey("k1"), goodKey("k2")}},
 	}
 	// evaluate: validate + (if accepted) apply to every doc; rules oracle; effect monitor
@@ -433,7 +434,7 @@ func checkC18(c *hx.Ctx) {
 	}
 	// ---------- (2) RFC 6902: exhaustive single operations
 	ptrs := []interface{}{"", "/", "/a", "/arr", "/arr/0", "/arr/1", "/arr/-", "/arr/-1", "/arr/99999999999999999999", "/arr/00", "/arr/2", "/arr/0/a", "/o", "/o/k", "/o/k/x", "/o/new",
-		"/missing", "/missing/x", "/~0", "/~1", "/a~1b", "a", "x/service", "x/publicKey", "/service", "/publicKey", "/publicKey/0", "/service/0/id", "/publicKey/-", "//", "/o/", "/n", "/n/x",
+		"/missing", "/missing/x", "/~0", "/~1", "/a~1b", "/~", "/~01", "/~0/t", "/~/t", "/a~1b/s", "a", "x/service", "x/publicKey", "/service", "/publicKey", "/publicKey/0", "/service/0/id", "/publicKey/-", "//", "/o/", "/n", "/n/x",
 		"/servicex", "/Service", "/ service", "/service~0", "service", "/~1service", nil, 5.0}
 	vals := []interface{}{"__absent__", "v", nil, map[string]interface{}{"k": nil}, []interface{}{1.0}}
 	kinds := []interface{}{"add", "remove", "replace", "move", "copy", "test"}
@@ -478,6 +479,21 @@ func checkC18(c *hx.Ctx) {
 					jobs = append(jobs, job{[]interface{}{patchJSON(chain...)}, "rfc6902-alias-chain", "", nil})
 					jobs = append(jobs, job{[]interface{}{patchJSON(chain[0]), patchJSON(chain[1])}, "rfc6902-alias-chain", "", nil})
 					jobs = append(jobs, job{[]interface{}{patchJSON(append(chain, map[string]interface{}{"op": "copy", "from": a, "path": "/final"})...)}, "rfc6902-alias-chain", "", nil})
+				}
+			}
+		}
+	}
+	// a value copied / moved into its own child where source and target spell the same member differently (escapes are
+	// decoded by the engine: "~0" and a lone "~" are the member "~", "~1" is "/", array indices are parsed as numbers)
+	for _, sp := range [][]string{{"/~", "/~0"}, {"/a~1b"}, {"/~01"}, {"/o"}, {"/arr/0", "/arr/00", "/arr/+0", "/arr/-0"}, {"/0", "/00"}, {"/arr"}} {
+		for _, from := range sp {
+			for _, to := range sp {
+				for _, suf := range []string{"/x", "/0", "/-", "/x/y"} {
+					for _, k2 := range []string{"copy", "move"} {
+						jobs = append(jobs, job{[]interface{}{patchJSON(map[string]interface{}{"op": k2, "from": from, "path": to + suf})}, "rfc6902-into-own-child", "", nil})
+					}
+					chain := []map[string]interface{}{{"op": "copy", "from": from, "path": "/alias"}, {"op": "copy", "from": "/alias", "path": to + suf}, {"op": "copy", "from": to, "path": "/final"}}
+					jobs = append(jobs, job{[]interface{}{patchJSON(chain...)}, "rfc6902-into-own-child", "", nil})
 				}
 			}
 		}
